@@ -4,6 +4,7 @@ package main
 
 import (
 	"context"
+	"encoding/json"
 	"fmt"
 	"regexp"
 	"sort"
@@ -101,6 +102,54 @@ func ownerOfName(fn string) int64 {
 func asMap(a any) map[string]any {
 	m, _ := a.(map[string]any)
 	return m
+}
+
+// buildResults compiles the rendered sources of the files (no shared Symbols) and
+// returns the linker.Result of each: the files are then imported through the importResult path.
+func buildResults(specs []any, sources map[string]any) (map[int64]protoreflect.FileDescriptor, []int64, error) {
+	srcs := map[string]string{}
+	for k, v := range sources {
+		srcs[k], _ = v.(string)
+	}
+	var order []int64
+	var paths []string
+	for _, sa := range specs {
+		id := vhlib.Num(asMap(sa), "id")
+		order = append(order, id)
+		paths = append(paths, fpath(id))
+	}
+	// one Compile per file, in id order (imports have lower ids); a file that was compiled before is
+	// resolved to that very result, so that files importing the same file share its descriptor, while
+	// files that collide with each other (and do not import each other) still compile
+	compiled := map[string]linker.File{}
+	out := map[int64]protoreflect.FileDescriptor{}
+	for i, id := range order {
+		comp := protocompile.Compiler{Resolver: protocompile.CompositeResolver{
+			protocompile.ResolverFunc(func(path string) (protocompile.SearchResult, error) {
+				if f, ok := compiled[path]; ok {
+					return protocompile.SearchResult{Desc: f}, nil
+				}
+				return protocompile.SearchResult{}, protoregistry.NotFound
+			}),
+			&protocompile.SourceResolver{Accessor: protocompile.SourceAccessorFromMap(srcs)},
+		}}
+		files, err := comp.Compile(context.Background(), paths[i])
+		if err != nil {
+			return nil, nil, err
+		}
+		compiled[paths[i]] = files[0]
+		out[id] = files[0]
+	}
+	return out, order, nil
+}
+
+// filesOf builds the files of a case as descriptors (protodesc) or as compiled results
+func filesOf(in map[string]any) (map[int64]protoreflect.FileDescriptor, []int64, error) {
+	collectAll = vhlib.Str(in, "handler") == "collect"
+	if vhlib.Str(in, "kind") == "result" {
+		return buildResults(vhlib.List(in, "files"), asMap(in["sources"]))
+	}
+	return buildFiles(vhlib.List(in, "files"))
 }
 
 func buildFiles(specs []any) (map[int64]protoreflect.FileDescriptor, []int64, error) {
@@ -215,6 +264,9 @@ func canonErr(err error) map[string]any {
 	if err == nil {
 		return map[string]any{"e": "ok"}
 	}
+	if err == reporter.ErrInvalidSource {
+		return map[string]any{"e": "invalid"}
+	}
 	t := err.Error()
 	if m := reSymPkg.FindStringSubmatch(t); m != nil {
 		return map[string]any{"e": "sym", "name": m[1], "aspkg": true}
@@ -289,14 +341,52 @@ func (u universe) look(s *linker.Symbols) map[string]any {
 	return map[string]any{"names": ln, "exts": le}
 }
 
+// collectAll selects the kind of handler of the current case: false = fail-fast (the reporter
+// returns the error, like reporter.NewHandler(nil)), true = the reporter records every error and
+// returns nil, so the operation goes on and the handler ends with ErrInvalidSource.
+var collectAll bool
+
+// a fresh handler of the selected kind; reported receives every error given to the reporter
+func newHandler(reported *[]any) *reporter.Handler {
+	return reporter.NewHandler(reporter.NewReporter(func(err reporter.ErrorWithPos) error {
+		*reported = append(*reported, canonErr(err))
+		if collectAll {
+			return nil
+		}
+		return err
+	}, nil))
+}
+
+// outcome of an operation that takes a handler: the returned error, what was reported, and
+// whether Handler.Error() ends as nil / ErrInvalidSource / the reported error
+func withHandler(f func(h *reporter.Handler) error) map[string]any {
+	reported := []any{}
+	h := newHandler(&reported)
+	out := canonErr(f(h))
+	out["reported"] = reported
+	out["herr"] = canonErr(h.Error())["e"]
+	return out
+}
+
+// an operation failed if it returned an error or reported one
+func failed(r map[string]any) bool {
+	if r["e"] == "look" {
+		return false
+	}
+	rep, _ := r["reported"].([]any)
+	return r["e"] != "ok" || len(rep) > 0
+}
+
 func doOp(s *linker.Symbols, files map[int64]protoreflect.FileDescriptor, op map[string]any) map[string]any {
 	switch vhlib.Str(op, "op") {
 	case "import":
 		fd := files[vhlib.Num(op, "f")]
-		return canonErr(s.Import(fd, reporter.NewHandler(nil)))
+		return withHandler(func(h *reporter.Handler) error { return s.Import(fd, h) })
 	case "addext":
-		return canonErr(s.AddExtension(protoreflect.FullName(vhlib.Str(op, "pkg")), protoreflect.FullName(vhlib.Str(op, "extendee")),
-			protoreflect.FieldNumber(vhlib.Num(op, "tag")), ast.UnknownSpan(fpath(vhlib.Num(op, "owner"))), reporter.NewHandler(nil)))
+		return withHandler(func(h *reporter.Handler) error {
+			return s.AddExtension(protoreflect.FullName(vhlib.Str(op, "pkg")), protoreflect.FullName(vhlib.Str(op, "extendee")),
+				protoreflect.FieldNumber(vhlib.Num(op, "tag")), ast.UnknownSpan(fpath(vhlib.Num(op, "owner"))), h)
+		})
 	case "lookup":
 		return map[string]any{"e": "look", "owner": ownerOf(s.Lookup(protoreflect.FullName(vhlib.Str(op, "name"))))}
 	case "lookupext":
@@ -320,7 +410,7 @@ func doOp(s *linker.Symbols, files map[int64]protoreflect.FileDescriptor, op map
 func symbolsCase(in map[string]any) map[string]any {
 	switch vhlib.Str(in, "mode") {
 	case "seq":
-		files, order, err := buildFiles(vhlib.List(in, "files"))
+		files, order, err := filesOf(in)
 		if err != nil {
 			return map[string]any{"builderr": err.Error()}
 		}
@@ -341,7 +431,7 @@ func symbolsCase(in map[string]any) map[string]any {
 				for _, oa := range ops[:n] {
 					doOp(t, files, asMap(oa))
 				}
-				out[gi] = canonErr(t.Import(files[g], reporter.NewHandler(nil)))
+				out[gi] = doOp(t, files, map[string]any{"op": "import", "f": json.Number(strconv.FormatInt(g, 10))})
 			}
 			return out
 		}
@@ -349,7 +439,7 @@ func symbolsCase(in map[string]any) map[string]any {
 			op := asMap(oa)
 			r := doOp(s, files, op)
 			st := map[string]any{"res": r, "dump": dump(s), "look": u.look(s)}
-			if probe && vhlib.Str(op, "op") == "import" && r["e"] != "ok" {
+			if probe && vhlib.Str(op, "op") == "import" && failed(r) {
 				st["probe_before"] = probeAt(i)
 				st["probe_after"] = probeAt(i + 1)
 			}
@@ -357,7 +447,7 @@ func symbolsCase(in map[string]any) map[string]any {
 		}
 		return map[string]any{"walks": walks, "order": order, "steps": steps}
 	case "conc":
-		files, order, err := buildFiles(vhlib.List(in, "files"))
+		files, order, err := filesOf(in)
 		if err != nil {
 			return map[string]any{"builderr": err.Error()}
 		}
@@ -410,7 +500,7 @@ func symbolsCase(in map[string]any) map[string]any {
 	case "stress":
 		// the same concurrent partitioned import repeated on fresh tables: how many repetitions
 		// reported a collision, and how many ended with lookups different from the reference
-		files, _, err := buildFiles(vhlib.List(in, "files"))
+		files, _, err := filesOf(in)
 		if err != nil {
 			return map[string]any{"builderr": err.Error()}
 		}
@@ -424,7 +514,7 @@ func symbolsCase(in map[string]any) map[string]any {
 		for _, pa := range parts {
 			ops, _ := pa.([]any)
 			for _, oa := range ops {
-				if r := doOp(ref, files, asMap(oa)); r["e"] != "ok" {
+				if r := doOp(ref, files, asMap(oa)); failed(r) {
 					refErr = true
 				}
 			}
@@ -445,7 +535,7 @@ func symbolsCase(in map[string]any) map[string]any {
 					defer wg.Done()
 					<-start
 					for _, oa := range ops {
-						if r := doOp(s, files, asMap(oa)); r["e"] != "ok" {
+						if r := doOp(s, files, asMap(oa)); failed(r) {
 							mu.Lock()
 							anyErr = true
 							mu.Unlock()
@@ -480,6 +570,7 @@ func symbolsCase(in map[string]any) map[string]any {
 		return map[string]any{"ref_err": refErr, "ref_look": u.look(ref), "reps": reps, "reps_with_error": nerr,
 			"reps_with_other_lookups": ndiff, "first_other_look": firstDiff}
 	case "compile":
+		collectAll = false
 		srcs := map[string]string{}
 		for k, v := range asMap(in["sources"]) {
 			srcs[k], _ = v.(string)
